@@ -435,7 +435,7 @@ def boundary_alphabet(pairs, kind, full=True):
 
 def run(ctx):
     ctx.exhaustive = True
-    check_tables(ctx)
+    ctx.guarded("tables", check_tables, ctx)
     w = ctx.workers
     jobs = []
     for method in METHODS:
